@@ -30,6 +30,14 @@ M = [
  ("M013", ["C12"], TK + "transceiver.py", "if self.child_mgt and self.child_idx == 0:", "if self.child_idx == 0:", "MS manages children although child_mgt is off"),
  ("M014", ["C12"], TK + "transceiver.py", "remote_addr, base_port + self.child_idx * 2 + 102,", "remote_addr, base_port + self.child_idx + 102,", "child DATA remote port arithmetic"),
  ("M015", ["C12"], TK + "transceiver.py", "\t\t\telif self.clck_gen.running and not clck_links:", "\t\t\telif self.clck_gen.running and not self.running:", "generator stopped while another owner still runs"),
+ ("M020", ["C18"], TK + "fake_trx.py", "\t\tif msg.fn % self.burst_drop_period == 0:\n", "\t\tself.burst_drop_amount -= 1\n\t\tif msg.fn % self.burst_drop_period == 0:\n\t\t\tself.burst_drop_amount += 1\n\t\t\tself.burst_drop_amount -= 1\n\t\t\treturn True\n\t\tif False:\n", "budget decremented also on non-matching FN"),
+ ("M021", ["C18"], TK + "fake_trx.py", "if period <= 0:", "if period < 0:", "period 0 accepted (later modulo by zero)"),
+ ("M022", ["C18"], TK + "fake_trx.py", "\t\t\tself.burst_drop_amount = num\n\t\t\tself.burst_drop_period = 1\n", "\t\t\tself.burst_drop_amount = num\n", "one-argument form keeps the old period"),
+ ("M023", ["C18"], TK + "fake_trx.py", "RSSI_NOISE_DEFAULT = -110", "RSSI_NOISE_DEFAULT = -109", "NOPE.ind RSSI not the noise level"),
+ ("M024", ["C18"], TK + "fake_trx.py", "\t\tif self.rf_muted:\n\t\t\tmsg.nope_ind = True\n\t\telif not msg.nope_ind:", "\t\tif not msg.nope_ind:", "receiver-side RF mute ignored"),
+ ("M025", ["C18"], TK + "fake_trx.py", "\t\t\tnum = int(request[1])\n\t\t\tif num < 0:\n\t\t\t\tlog.error(\"(%s) FAKE_DROP amount shall not \"\n\t\t\t\t\t\"be negative\" % self)\n\t\t\t\treturn -1\n\n\t\t\tself.burst_drop_amount = num\n\t\t\tself.burst_drop_period = 1", "\t\t\tnum = int(request[1])\n\t\t\tself.burst_drop_amount = num\n\t\t\tself.burst_drop_period = 1\n\t\t\tif num < 0:\n\t\t\t\treturn -1", "negative amount rejected after the state was changed"),
+ ("M026", ["C18"], TK + "fake_trx.py", "if self.burst_drop_amount == 0:", "if self.burst_drop_amount <= 1:", "last requested burst is not dropped"),
+ ("M027", ["C18"], TK + "burst_fwd.py", "\t\tif src_trx.rf_muted:\n", "\t\tif False:\n", "sender-side RF mute ignored"),
 ]
 
 
